@@ -186,11 +186,32 @@ type MyWorld struct {
 	// network partitions between an instance (mysync on host X) and a MySQL host
 	blocked map[string]bool // "inst>host"
 	Version [3]int
+	done    chan struct{}
+}
+
+// Shutdown releases every parked (hanging) statement so that goroutines can exit.
+func (w *MyWorld) Shutdown() {
+	w.mu.Lock()
+	select {
+	case <-w.done:
+	default:
+		close(w.done)
+	}
+	w.mu.Unlock()
+}
+
+func (w *MyWorld) sleepOrDone(d time.Duration) {
+	t := time.NewTimer(d)
+	defer t.Stop()
+	select {
+	case <-w.done:
+	case <-t.C:
+	}
 }
 
 func NewMyWorld(names ...string) *MyWorld {
 	w := &MyWorld{Hosts: map[string]*MyHost{}, Acked: TxnSet{}, AckedBy: map[Txn]string{}, conns: map[string][]net.Conn{},
-		instConns: map[string][]net.Conn{}, deadInst: map[string]bool{}, blocked: map[string]bool{}, Version: [3]int{8, 0, 32}}
+		instConns: map[string][]net.Conn{}, deadInst: map[string]bool{}, blocked: map[string]bool{}, Version: [3]int{8, 0, 32}, done: make(chan struct{})}
 	for _, n := range names {
 		w.AddHost(n)
 	}
@@ -270,6 +291,7 @@ func (w *MyWorld) Dial(addr string, deadline time.Time) (net.Conn, error) {
 	h := w.Hosts[host]
 	if h == nil || !h.Up || h.Net == "refuse" {
 		w.mu.Unlock()
+		time.Sleep(20 * time.Millisecond) // a refused dial costs a round trip (keeps busy retry loops live on the virtual clock)
 		return nil, fmt.Errorf("dial tcp %s: connect: connection refused", addr)
 	}
 	if h.Net == "isolated" {
@@ -620,6 +642,7 @@ func (w *MyWorld) serve(c net.Conn, host string, id uint32) {
 	w.mu.Lock()
 	if w.deadInst[inst] {
 		w.mu.Unlock()
+		time.Sleep(200 * time.Millisecond) // a dead process does nothing; its zombie goroutine unwinds slowly
 		return
 	}
 	w.instConns[inst] = append(w.instConns[inst], c)
@@ -826,7 +849,7 @@ func (w *MyWorld) execute(inst, host, q string, lockWait int) (*MyResult, *MyErr
 	hook := w.Hook
 	w.mu.Unlock()
 	if blocked {
-		time.Sleep(24 * time.Hour) // the caller's context deadline closes the connection long before
+		w.sleepOrDone(24 * time.Hour) // the caller's context deadline closes the connection long before
 		return nil, nil, true
 	}
 	if hook != nil {
@@ -838,7 +861,7 @@ func (w *MyWorld) execute(inst, host, q string, lockWait int) (*MyResult, *MyErr
 			w.mu.Lock()
 			w.logEv(TraceEvent{K: "sql", By: inst, At: host, Op: si.kind, Arg: si.arg, Res: "hang", Mut: si.mut})
 			w.mu.Unlock()
-			time.Sleep(24 * time.Hour)
+			w.sleepOrDone(24 * time.Hour)
 			return nil, nil, true
 		}
 		if d.Drop {
@@ -897,6 +920,14 @@ func (w *MyWorld) execute(inst, host, q string, lockWait int) (*MyResult, *MyErr
 	w.mu.Unlock()
 	if hook != nil {
 		hook.AfterSQL(call, r)
+	}
+	if w.gone(host, inst) {
+		// the server (or the calling process) died after applying the statement and
+		// before the answer was delivered: the caller sees a broken connection
+		w.mu.Lock()
+		w.logEv(TraceEvent{K: "sql", By: inst, At: host, Op: si.kind, Arg: si.arg, Res: "reply_lost", Mut: false})
+		w.mu.Unlock()
+		return nil, nil, true
 	}
 	return res, myerr, false
 }
